@@ -35,7 +35,7 @@ choose case: [framever, dam, sam, dest_panid|null, src_panid|null, has_layer]
    result  : {"bit": n, "view": [hasattr dest_panid, hasattr src_panid, packet.dest_panid, packet.src_panid]}
              | {"exc": cls, "view": ...}
 """
-import sys, json, logging, struct, signal, queue as _queue
+import os, sys, json, logging, struct, signal, queue as _queue
 logging.disable(logging.CRITICAL)
 from scapy.config import conf
 conf.dot15d4_protocol = "zigbee"
@@ -124,7 +124,7 @@ class WallClock(Exception):
     """a single case took more real time than allowed (something blocks or sleeps in real time)"""
 
 
-CASE_WALL_S = 10.0
+CASE_WALL_S = float(os.environ.get("C20_CASE_WALL_S", "10"))
 
 
 def _on_alarm(signum, frame):
